@@ -189,8 +189,8 @@ impl Workload for Bases {
 pub fn run(ctx: &Ctx) -> i32 {
     let mut acc = Acc::new(ctx);
     let wl = Bases {
-        n: if ctx.quick() { 3000 } else { 100_000 },
-        cli_every: if ctx.quick() { 15 } else { 100 },
+        n: if ctx.quick() { 10_000 } else { 100_000 },
+        cli_every: if ctx.quick() { 25 } else { 100 },
     };
     acc.pool(&wl, "c14", false);
     // Canary: overwriting the whole components object must be flagged.
